@@ -226,7 +226,8 @@ def check_assign(case, ctx):
     page.regions = out
     for ln in page.lines_iterator():
         ln.logits, ln.characters, ln.logit_coords = np.zeros((1, 2)), ['a', 'b'], [0, 1]
-    d = page._gen_logits()
+    import pickle
+    d = pickle.loads(page.save_logits_bytes())
     if len(d) - 2 != n_lines:
         ctx.violation('line-ids-distinct', f'{ID}/assign/logits-dict-loses-lines', f'{desc}: {n_lines} lines but {len(d) - 2} keys')
 
@@ -271,14 +272,38 @@ class StubEngine:
         return b, [list(HEIGHTS) for _ in b], [baseline_to_textline(x, HEIGHTS) for x in b]
 
 
+def make_extractor(dr, dl, ml, mo):
+    """a LayoutExtractor for the given options: the real constructor on a configuration section, with only the layout network and the worker
+    pool replaced; if the constructor cannot be driven that way, the attributes it sets are set by hand"""
+    from pero_ocr.document_ocr import page_parser
+    yn = lambda x: 'yes' if x else 'no'
+    try:
+        import configparser
+        import unittest.mock
+        import torch
+        cfg = configparser.ConfigParser()
+        cfg['LAYOUT'] = {'METHOD': 'LAYOUT_CNN', 'MODEL_PATH': 'stub-model', 'DETECT_REGIONS': yn(dr), 'DETECT_LINES': yn(dl), 'MERGE_LINES': yn(ml),
+                         'MULTI_ORIENTATION': yn(mo), 'DETECT_STRAIGHT_LINES_IN_REGIONS': 'no', 'ADJUST_HEIGHTS': 'no', 'ADJUST_BASELINES': 'no',
+                         'USE_CPU': 'yes', 'DOWNSAMPLE': '4', 'DETECTION_THRESHOLD': '0.2', 'MAX_MEGAPIXELS': '5'}
+        with unittest.mock.patch.object(page_parser, 'LayoutEngine', lambda **kw: None), \
+                unittest.mock.patch.object(page_parser, 'Pool', lambda *a, **kw: None):
+            ex = page_parser.LayoutExtractor(cfg['LAYOUT'], torch.device('cpu'))
+        if (ex.detect_regions, ex.detect_lines, ex.merge_lines, ex.multi_orientation) != (bool(dr), bool(dl), bool(ml), bool(mo)):
+            raise RuntimeError('unexpected extractor')
+        return ex
+    except Exception:  # noqa
+        ex = object.__new__(page_parser.LayoutExtractor)
+        ex.detect_regions, ex.detect_lines, ex.merge_lines, ex.multi_orientation = bool(dr), bool(dl), bool(ml), bool(mo)
+        ex.detect_straight_lines_in_regions = ex.adjust_heights = ex.adjust_baselines = False
+        return ex
+
+
 def check_extractor(case, ctx):
     from pero_ocr.core.layout import PageLayout, RegionLayout
     from pero_ocr.document_ocr.page_parser import LayoutExtractor
     dr, dl, ml, mo = case['extractor']
     scen = SCENARIOS[case['scenario']]
-    ex = object.__new__(LayoutExtractor)        # the constructor insists on loading a network
-    ex.detect_regions, ex.detect_lines, ex.merge_lines, ex.multi_orientation = bool(dr), bool(dl), bool(ml), bool(mo)
-    ex.detect_straight_lines_in_regions = ex.adjust_heights = ex.adjust_baselines = False
+    ex = make_extractor(dr, dl, ml, mo)
     ex.engine = StubEngine(scen)
     page = PageLayout(id='p', page_size=(100, 100))
     if not dr:
@@ -338,7 +363,13 @@ def check_simple(case, ctx):
     from pero_ocr.core.layout import PageLayout, RegionLayout
     from pero_ocr.document_ocr.page_parser import TextlineExtractorSimple
     scen = SCENARIOS[case['simple']]
-    ex = object.__new__(TextlineExtractorSimple)
+    try:
+        import configparser
+        cfg = configparser.ConfigParser()
+        cfg['L'] = {'ADAPTIVE_THRESHOLD': '21', 'BLOCK_SIZE': '11', 'MINIMUM_LENGTH': '5', 'IGNORED_BORDER_PIXELS': '2'}
+        ex = TextlineExtractorSimple(cfg['L'])
+    except Exception:  # noqa
+        ex = object.__new__(TextlineExtractorSimple)
     ex.engine = StubEngine(scen)
     page = PageLayout(id='p', page_size=(100, 100))
     page.regions = [RegionLayout(f'r{i:03d}', np.asarray(REGIONS[i], dtype=np.float64)) for i in scen[0][0]]
